@@ -218,10 +218,8 @@ func (f LField) seg(r string) []string {
 		return []string{fmt.Sprintf("rep(elems(%s), %d, 0, len(%s))", m, f.N, m)}
 	case "seq3":
 		return []string{"be32(int(" + m + "[0]))", "be32(int(" + m + "[1]))", "be32(int(" + m + "[2]))"}
-	case "tlvs":
-		return []string{"tlvser(" + m + ")"}
-	case "options":
-		return []string{"optser(" + m + ")"}
+	case "tlvs", "options":
+		return []string{"tlvser(" + m + ", ORD, 0, len(" + m + "))"}
 	}
 	return nil
 }
@@ -263,10 +261,8 @@ func (f LField) wf(r string) []string {
 	case "rep":
 		return []string{fmt.Sprintf("len(%s) == int(%s.%s)", m, r, f.Ref),
 			fmt.Sprintf("forall j int :: 0 <= j && j < len(%s) ==> nonul(%s[j]) && len(%s[j]) <= %d", m, m, m, f.N)}
-	case "tlvs":
+	case "tlvs", "options":
 		return []string{"tlvwf(" + m + ")"}
-	case "options":
-		return []string{"optwf(" + m + ")"}
 	}
 	return nil
 }
@@ -280,10 +276,8 @@ func (f LField) eq(a, b string) []string {
 			fmt.Sprintf("forall j int :: 0 <= j && j < len(%s) ==> %s[j] == %s[j]", mb, ma, mb)}
 	case "seq3":
 		return []string{ma + "[0] == " + mb + "[0]", ma + "[1] == " + mb + "[1]", ma + "[2] == " + mb + "[2]"}
-	case "tlvs":
-		return []string{"tlveq(" + ma + ", " + mb + ")"}
-	case "options":
-		return []string{"opteq(" + ma + ", " + mb + ")"}
+	case "tlvs", "options":
+		return []string{"mapeq(" + ma + ", " + mb + ")"}
 	}
 	return []string{ma + " == " + mb}
 }
@@ -308,6 +302,15 @@ func (lt *LayoutType) layoutText(r, lenExpr string, withLen bool, from, to int) 
 		return "eps"
 	}
 	return "cat(" + strings.Join(segs, ", ") + ")"
+}
+
+func (lt *LayoutType) tlvField() *LField {
+	for i := range lt.Fields {
+		if lt.Fields[i].Kind == "tlvs" || lt.Fields[i].Kind == "options" {
+			return &lt.Fields[i]
+		}
+	}
+	return nil
 }
 
 func (lt *LayoutType) fieldIndex(member string) int {
@@ -380,10 +383,19 @@ func (w *World) synthesise(fs *FuncSpec) error {
 			}
 		}
 		if lt.Header != "none" {
-			enc.Requires = append(enc.Requires, mustClause("requires", "", "", "len("+lt.layoutText(r, "0", true, -1, len(lt.Fields))+") < 4294967296"))
+			if tf := lt.tlvField(); tf != nil {
+				// total size below 2^32 whatever order the optional parameters are emitted in
+				enc.Requires = append(enc.Requires, mustClause("requires", "", "", "forall tord Ord :: isperm(tord, "+r+"."+tf.Member+") ==> len("+strings.ReplaceAll(lt.layoutText(r, "0", true, -1, len(lt.Fields)), "ORD", "tord")+") < 4294967296"))
+			} else {
+				enc.Requires = append(enc.Requires, mustClause("requires", "", "", "len("+lt.layoutText(r, "0", true, -1, len(lt.Fields))+") < 4294967296"))
+			}
 		}
 		enc.Ensures = append(enc.Ensures, mustClause("ensures", "C01,C02", "enc.ok", "err == nil"))
-		if lt.Header != "none" {
+		if tf := lt.tlvField(); tf != nil {
+			lay := strings.ReplaceAll(lt.layoutText(r, "len(result)", true, -1, len(lt.Fields)), "ORD", "tord")
+			enc.Ensures = append(enc.Ensures, mustClause("ensures", "C01,C02", "enc.layout", "exists tord Ord :: isperm(tord, "+r+"."+tf.Member+") && result == "+lay))
+			enc.Ensures = append(enc.Ensures, mustClause("ensures", "C01,C02", "enc.len", "len(result) < 4294967296"))
+		} else if lt.Header != "none" {
 			enc.Ensures = append(enc.Ensures, mustClause("ensures", "C01,C02", "enc.layout", "result == "+lt.layoutText(r, "len(result)", true, -1, len(lt.Fields))))
 			enc.Ensures = append(enc.Ensures, mustClause("ensures", "C01,C02", "enc.len", "len(result) < 4294967296"))
 		} else {
@@ -428,6 +440,7 @@ func (w *World) synthesise(fs *FuncSpec) error {
 		}
 	case "dec":
 		if lt.Header != "none" {
+			fs.Behaviors[0].Requires = append(fs.Behaviors[0].Requires, mustClause("requires", "", "", r+" != nil"))
 			fs.Behaviors[0].Ensures = append(fs.Behaviors[0].Ensures, mustClause("ensures", "C10", "notunsupported", "err != sms.ErrUnsupportedPacket"))
 			fs.Options["check-default"] = "true"
 		}
@@ -443,7 +456,15 @@ func (w *World) synthesise(fs *FuncSpec) error {
 				dec.Requires = append(dec.Requires, mustClause("requires", "", "", "len("+r+"."+f.Member+") == 0"))
 			}
 		}
-		dec.Requires = append(dec.Requires, mustClause("requires", "", "", "content(data) == "+lt.layoutText("gq", "len(data)", true, -1, len(lt.Fields))))
+		if tf := lt.tlvField(); tf != nil {
+			dec.Ghost = append(dec.Ghost, CVar{"gord", "Ord"})
+			dec.Requires = append(dec.Requires, mustClause("requires", "", "", "isperm(gord, gq."+tf.Member+")"))
+			for _, callee := range []string{"ReadTLVs1", "ReadTLVs", "ReadOptions", "ParseOptions"} {
+				fs.Options["ghost."+callee+".M"] = "gq." + tf.Member
+				fs.Options["ghost."+callee+".ord"] = "gord"
+			}
+		}
+		dec.Requires = append(dec.Requires, mustClause("requires", "", "", "content(data) == "+strings.ReplaceAll(lt.layoutText("gq", "len(data)", true, -1, len(lt.Fields)), "ORD", "gord")))
 		dec.Ensures = append(dec.Ensures, mustClause("ensures", "C01,C02", "dec.ok", "err == nil"))
 		if lenMember != "" {
 			dec.Ensures = append(dec.Ensures, mustClause("ensures", "C01,C02", "dec.Header.len", "int("+lenMember+") == len(data)"))
@@ -672,7 +693,7 @@ func (e *CEnv) layoutCall(name string, args []*CExpr) (Value, bool) {
 		// filled in by BytesWithLength) and the preceding fields
 		text = lt.layoutText("__r", "int(__r.Header.TotalLength)", lt.LenMode == "field", -1, idx)
 	case "laysuffix":
-		text = lt.layoutText("__r", "", false, idx+1, len(lt.Fields))
+		text = strings.ReplaceAll(lt.layoutText("__r", "", false, idx+1, len(lt.Fields)), "ORD", "gord")
 	}
 	ex, err := ParseCExpr(text)
 	if err != nil {
